@@ -84,7 +84,11 @@ def ratFn (f : String) (args : List (Option Rat)) : Option Rat :=
   | "eq", [some a, some b] => b2r (a == b)
   | "ne", [some a, some b] => b2r (a != b)
   | "and", [some a, some b] => b2r (a != 0 && b != 0)
+  | "and", [some a, none] => if a == 0 then some 0 else none      -- three-valued: a decided operand decides
+  | "and", [none, some b] => if b == 0 then some 0 else none
   | "or", [some a, some b] => b2r (a != 0 || b != 0)
+  | "or", [some a, none] => if a != 0 then some 1 else none
+  | "or", [none, some b] => if b != 0 then some 1 else none
   | "not", [some a] => b2r (a == 0)
   | "not", [none] => some 1
   | _, _ => none
